@@ -3,5 +3,7 @@
 # differential-tested by them) through all quick checks in scratch worktrees; any ALARM line is a false alarm.
 cd /verif && ./setup.sh >/dev/null || exit 2
 # snapshot of the checker binary: a rebuild while this runs must not change what is evaluated
-export CMVERIFY=$(mktemp /tmp/cmverify.XXXXXX); cp .bin/cmverify "$CMVERIFY"; chmod +x "$CMVERIFY"; trap 'rm -f "$CMVERIFY"' EXIT
+export CMVERIFY=$(mktemp /tmp/cmverify.XXXXXX); cp .bin/cmverify "$CMVERIFY"; chmod +x "$CMVERIFY"; # a build cache of its own, removed at the end: hundreds of scratch worktree builds grow the shared cache by tens of GB
+export GOCACHE=$(mktemp -d /tmp/gocache.XXXXXX)
+trap 'rm -f "$CMVERIFY"; rm -rf "$GOCACHE"' EXIT
 ls -d negatives/*/ | xargs -P "${1:-8}" -I{} sh -c './neg_eval.sh {} 2>/dev/null | cut -c1-700' | sort
